@@ -8,6 +8,7 @@ from mc.ref import report as RP
 
 LEVEL = "model_checking"
 _DIR = {}
+_EXPECT_ROWS = {}   # generated marked files: number of lines between the markers
 DEFAULT = {"x86": "spr", "aarch64": "v2"}
 
 
@@ -44,6 +45,21 @@ def _gen_kernels(d):
     w("x86_len101.s", ["addq $1, %%r%d" % (8 + i % 8) for i in range(101)], "x86")
     w("x86_len100.s", ["addq $1, %%r%d" % (8 + i % 8) for i in range(100)], "x86")
     w("a64_len101.s", ["add x%d, x%d, #1" % (i % 8, i % 8) for i in range(101)], "aarch64")
+    # marked kernels inside files of more than 100 lines; instruction mixes on which a guess of
+    # the ISA from the text goes wrong (x86 integer code with hex immediates, AArch64 without
+    # x/w registers): without --arch the other ISA has to be tried, and the markers still count
+    from mc.checks import c11
+    xb = ["addq $0x10, %r8", "subq $0x20, %r9", "addq %r8, %r10", "addq $0x1, %r11",
+          "cmpq $0x100, %r11", "jne .L9"]
+    ab = ["fadd v1.2d, v1.2d, v0.2d", "fmul v3.2d, v1.2d, v2.2d", "fadd d4, d4, d5",
+          "fmla v6.2d, v1.2d, v3.2d"]
+    for name, isa, body, fill in (("x86_hex_marked_in_long_file.s", "x86", xb, "addq $0x8, %r12"),
+                                  ("a64_fp_marked_in_long_file.s", "aarch64", ab,
+                                   "fadd d7, d7, d8")):
+        lines = [fill] * 3 + c11.marker(isa, "start", "one") + body + \
+            c11.marker(isa, "end", "one") + [fill] * 110
+        w(name, lines, isa)
+        _EXPECT_ROWS[name] = len(body)
     return out
 
 
@@ -191,6 +207,13 @@ def check_case(item):
             code = f.read()
         nparsed = len([l for l in code.split("\n") if l.strip()])
         marked = len(K) != nparsed
+        want = _EXPECT_ROWS.get(os.path.basename(path))
+        if want is not None:
+            n += 1
+            marked = True
+            if len(K) != want:
+                bad.append(("selection", "%d lines analysed, the markers enclose %d"
+                            % (len(K), want)))
         exp_len = (not marked) and nparsed > 100
         n += 1
         if r.length_warning != exp_len or ("LengthWarning" in d["Warnings"]) != exp_len:
